@@ -58,19 +58,16 @@ def deviation(code, oracle):
 
 
 def bound_deviation(d, xmin, xmax):
-    """(lower, upper) bounds of |sum d_k x^k| over [xmin, xmax], xmin > 0 (exact rationals, crude but valid)"""
+    """(witness, upper): witness = the deviation's exact magnitude at an end point of the range (a value that IS attained
+    for some parameter in the quantifier domain); upper = a bound of its magnitude over the whole range [xmin, xmax]"""
     if not d:
         return F(0), F(0)
-    upper = poly_eval_abs(d, xmax)
-    ks = sorted(d)
-    neg = [k for k in ks if k < 0]
-    if neg:
-        return F(0), upper
-    m = ks[0]
-    lower = abs(d[m]) * xmin ** m - sum(abs(d[k]) * xmax ** k for k in ks[1:])
-    if lower < 0:
-        lower = F(0)
-    return lower, upper
+    if any(k < 0 for k in d) and xmin <= 0:
+        return F(0), F(10) ** 30
+    upper = max(poly_eval_abs(d, xmax), poly_eval_abs(d, xmin))
+    w1 = abs(sum(c * xmax ** k for k, c in d.items()))
+    w0 = abs(sum(c * xmin ** k for k, c in d.items())) if xmin > 0 or all(k >= 0 for k in d) else F(0)
+    return max(w0, w1), upper
 
 
 def frac_up(x, digits=12):
@@ -86,8 +83,9 @@ def fmt_poly(d, var='n'):
 
 
 def table_rule(rep, rule, key, where, code, oracle, xmin, xmax, amp_low, amp_high, tol, what, unit='m'):
-    """code/oracle: {power: Fraction}.  VIOLATED iff the deviation's guaranteed effect exceeds tol; SUBTOL iff its
-    largest possible effect is below tol/10; UNDECIDED otherwise; HOLDS when identical."""
+    """code/oracle: {power: Fraction}.  VIOLATED iff for some parameter value in the range the deviation's effect
+    (exact deviation at a range end point times an amplification that is attained in the domain) exceeds tol;
+    SUBTOL iff its largest possible effect over the whole range is below tol/10; UNDECIDED otherwise; HOLDS when identical."""
     if code is None:
         rep.undecided(rule, key, where, what + ': not a polynomial in the expected variable')
         return
